@@ -16,15 +16,20 @@ BOUNDS = {
                   turns='all 4 quarter turns', poses='every cell x 4 headings', opacity='symbolic per world cell'),
     'thorough': dict(worlds='up to 2x3 with every area of the box; 1x4, 3x2, 3x4, 4x4 with 13 selected areas', turns='all 4', poses='all', opacity='symbolic'),
 }
-OUTSIDE = 'the shipped 7x7 view on 13x13 worlds; the stochastic observation function (not deterministic)'
+OUTSIDE = 'the shipped 7x7 view is covered on an 8x9 world with three symbolic occluders only; the stochastic observation function (not deterministic)'
 ASSUMPTIONS = ['documented preconditions of partially_occluded and raytracing on the view area']
 STUBS = ['Tok cells with symbolic blocks_vision']
 TIME_LIMIT = {'quick': 300, 'thorough': 1800}
 
 
-def mk(fname, H, W, box=None, fixed=None):
+def mk(fname, H, W, box=None, fixed=None, symbolic_cells=None):
     def h(sx):
         toks = make_world(sx, H, W)
+        if symbolic_cells is not None:
+            for y in range(H):
+                for x in range(W):
+                    if (y, x) not in symbolic_cells:
+                        toks[y][x].force(False)
         pose = sym_pose(sx, H, W)
         area = sym_area(sx, box, **needs(fname)) if fixed is None else fixed_area(sx, fixed, fname)
         q = int(sx.int('q', 1, 3))
@@ -55,4 +60,7 @@ def obligations(tier):
             for a in (AREAS_QUICK if qk else AREAS_THOROUGH):
                 if area_ok(a, fname):
                     obs.append(Obligation(f'{fname}-{H}x{W}-area{a}', mk(fname, H, W, fixed=a), dict(function=fname, H=H, W=W, area=list(a))))
+    for fname in DETERMINISTIC:
+        obs.append(Obligation(f'{fname}-8x9-shipped-view', mk(fname, 8, 9, fixed=(-6, 0, -3, 3), symbolic_cells={(3, 4), (4, 4), (4, 3)}),
+                              dict(function=fname, H=8, W=9, area=[-6, 0, -3, 3], symbolic_opacity='3 cells')))
     return obs
